@@ -46,7 +46,7 @@ impl Ctx {
         Ctx { pki: Pki::new(3), router: router_identity(), cache: HashMap::new() }
     }
     pub fn der(&mut self, c: &Value, serial: u64) -> Vec<u8> {
-        let key = c.to_string();
+        let key = format!("{}@{}", c, EPOCH.load(std::sync::atomic::Ordering::SeqCst));
         if let Some(d) = self.cache.get(&key) {
             return d.clone();
         }
@@ -167,6 +167,7 @@ pub fn replay(args: &[String]) {
     let cases = read_cases(&args[0]);
     let mut s = Summary::new();
     let mut ctx = Ctx::new();
+    let mut chain_no = 0usize;
     for c in &cases {
         if c["op"] == "pair" {
             match guarded(|| run_pair(&mut ctx, c)) {
@@ -182,6 +183,20 @@ pub fn replay(args: &[String]) {
             Ok(Err((k, m))) => s.violation(&k, m, c.clone()),
             Err(m) => s.violation("panic", m, c.clone()),
         }
+        // every fifth behaviour is run again with its instants moved to 1950 (UTCTime year "50") and to the 2049/2050 boundary
+        if chain_no % 5 < 2 {
+            let epoch = 1 + chain_no % 5;
+            EPOCH.store(epoch, std::sync::atomic::Ordering::SeqCst);
+            let r = guarded(|| run_chain(&mut ctx, c));
+            EPOCH.store(0, std::sync::atomic::Ordering::SeqCst);
+            match r {
+                Ok(Ok(())) => {}
+                Ok(Err((k, m))) => s.violation(&format!("{k}:epoch{epoch}"), format!("[instants at epoch {epoch}] {m}"), c.clone()),
+                Err(m) => s.violation("panic", format!("[instants at epoch {epoch}] {m}"), c.clone()),
+            }
+            s.evals(1);
+        }
+        chain_no += 1;
         s.eval_if(c["certs"].as_array().unwrap().len() >= 2, &format!("{}", c["certs"]));
         if s.samples.len() < 3 && s.evaluations % 9001 == 77 {
             s.sample(c.clone());
